@@ -34,6 +34,7 @@ EXPLANATION = (
     "to its qubit register before the call must be a load of the qubit-id array at the pair index, a literal 0 being accepted only "
     "in a function called solely under the single-communication-qubit guard; every correction emission and the post_process flag "
     "lie under expect_phi_plus (and role == RECV)."
+    ' C10.E: the gate of every correction-emitting site is decided as an implication (helper predicates inlined, all valuations of its atoms, both roles). C10.X: sdk_epr_keep is executed abstractly for every combination of post routine / sequential / communication qubits / role: exactly one correction mechanism is enabled. C10.Z: no truthiness test on an int-typed value.'
 )
 LEVEL_TEXT = (
     "Static analysis, partial: correction table, post-processing table (18 entries), correction target and gating are decided at every "
